@@ -113,3 +113,10 @@ Proof.
   - now apply class2tokens_degap.
   - intros L. now apply class2tokens_pattern.
 Qed.
+
+(* the "argument not modified" checker decides equality of the caller's list before and after *)
+Theorem unchangedb_spec before after : unchangedb before after = true <-> before = after.
+Proof. apply toks_eqb_eq. Qed.
+
+Theorem unchangedzb_spec before after : unchangedzb before after = true <-> before = after.
+Proof. apply (list_eqb_spec Z.eqb Z.eqb_eq). Qed.
